@@ -543,6 +543,11 @@ def units_C17(tier, seed):
     # rebuilt from the reported configurations through every constructor overload of every layer
     for k in IO_STACKS + IO_LAYERS:
         U += unit(f'c17_rebuild_{k}', H, f'rebuild_h<{k}>()', sites=[1, 2, 3], diff=(k in (5, 6)), flavours=('rel', 'dbg') if k in (4, 5, 6, 21) else ('rel',))
+        if k == 3:
+            for lay in (0, 1, 2):
+                U += unit(f'c17_rebuild_conv_{lay}', H, f'rebuild_conv_h<{lay},{3 if lay == 2 else 2}>()', sites=[1, 2, 3], weight=40, timeout=1800, cfg={'sym_cells_cap': 4096})
+        if k in (3, 5, 7, 10, 6):
+            U += unit(f'c17_rebuild_geo_{k}', H, f'rebuild_geo_h<{k},{3 if k == 7 else 2}>()', sites=[1, 2, 3], weight=40, timeout=1800, cfg={'sym_cells_cap': 4096})
     return U
 
 
